@@ -352,7 +352,14 @@ def run_check(prop, tier='quick', seed=None, replay=None):
         # the driver must still be buildable to run the search
         rc2, text2, _ = lake_build([mod.DRV])
         if rc2 != 0:
-            raise MachineryError('driver does not build:\n' + text2[-3000:])
+            # the regenerated model itself does not compile (translator could not follow the new source):
+            # fall back to the committed generated files so that the search can still run with the old model
+            sh(['git', 'checkout', '--', 'lean/Ruint/Gen'], cwd=ROOT)
+            notes.append('regenerated model does not build; search runs with the committed Ruint/Gen files')
+            proof_broken['regenerated_model_builds'] = False
+            rc2, text2, _ = lake_build([mod.DRV])
+            if rc2 != 0:
+                raise MachineryError('driver does not build:\n' + text2[-3000:])
     drvpath = os.path.join(LEAN, '.lake', 'build', 'bin', mod.DRV)
 
     names, bad, hits, axioms_used = [], {}, [], []
